@@ -115,13 +115,18 @@ def rex_part(stats):
         s = z3.Solver(); s.set("timeout", 20000); s.add(constraints); r = stats.check(s)
         ok = (r == z3.unsat) if expect_unsat else (r == z3.sat)
         rec = {"obligation": name, "verdict": "holds" if ok else str(r)}
-        if not ok and r == z3.sat: rec["model"] = repr(s.model()[x].as_string())
+        if not ok and r == z3.sat and s.model()[x] is not None: rec["model"] = repr(s.model()[x].as_string())
         out.append(rec)
     for v, lang in L.items():
         q("token %s does not match the empty string" % v, [x == z3.StringVal(""), z3.InRe(x, lang)])
     skip = [t for t in toks if t["skip"]]
-    q("exactly one skipped token class", [z3.BoolVal(len(skip) != 1)])
-    sk = L[skip[0]["variant"]]
+    q("there is a skipped token class", [z3.BoolVal(len(skip) == 0)])
+    if not skip: return out, toks
+    # the skipped language is the union of every rule marked logos::skip (one variant may carry several)
+    sk = None
+    for t in skip:
+        r1 = z3.Re(z3.StringVal(t["text"])) if t["kind"] == "token" else T.to_z3(t["text"])
+        sk = r1 if sk is None else z3.Union(sk, r1)
     q("skipped text is spaces, tabs and carriage returns only", [z3.InRe(x, sk), z3.Not(z3.InRe(x, z3.Plus(z3.Union(z3.Re(" "), z3.Re("\t"), z3.Re("\r")))))])
     q("skipped text contains no newline", [z3.InRe(x, sk), z3.Contains(x, z3.StringVal("\n"))])
     q("every run of spaces/tabs/CR is skipped (nothing else claims it)", [z3.InRe(x, z3.Plus(z3.Union(z3.Re(" "), z3.Re("\t"), z3.Re("\r")))), z3.Not(z3.InRe(x, sk))])
